@@ -9,7 +9,10 @@
        decides irreducibility.
    R4  the distinct-degree fact: if no irreducible divisor of P has degree < d then gcd(X^(p^d) - X mod P, P) is, up to a
        constant, a product of irreducibles of degree exactly d (ddf_fact of ProofsFactors.v), and it collects every
-       irreducible divisor of degree d of P. *)
+       irreducible divisor of degree d of P.
+   R5  hence the explicit hypothesis ddf_hyp of ProofsFactors.v holds for EVERY non-zero square-free polynomial (invariant of
+       ddf_trace: W = X^(p^(dp-1)) mod P, P | f, no irreducible divisor of P of degree < dp; the last cofactor is
+       irreducible by a degree count): DistinctDegreeFactor on a square-free input appends only irreducibles. *)
 From Coq Require Import ZArith List Bool Lia Znumtheory.
 From C09 Require Import Model Model2 ProofsAlg ProofsDiv ProofsSplit ProofsCZ ProofsIrr ProofsReq ProofsPow ProofsOrd ProofsSqr
   ProofsRep ProofsRep2 ProofsFactors ProofsLagrange ProofsIrrSound.
@@ -374,4 +377,300 @@ Proof. intros H. destruct round_G1_canon as [CG [NG _]].
 
 End Round.
 
+(* ================= R5: the hypothesis ddf_hyp of ProofsFactors.v holds for every square-free polynomial ================= *)
+(* a square-free polynomial is not divisible by the square of an irreducible *)
+Lemma sqfree_no_square f h : canon f -> f <> [] -> sqfree_h p f -> canon h -> irreducible_def h ->
+  divides (pmulZ h h) f -> False.
+Proof. intros Cf Nf Sf Ch Ih [t Ht]. pose proof (irreducible_len p h Ih) as Lh.
+  assert (E : eqp f (pmulZ h (pmulZ h t))) by (apply eqp_sym; eapply eqp_trans; [|exact Ht]; evr).
+  pose proof (pdiff_mul_gen p Hp f h (pmulZ h t) E) as E'.
+  assert (D1 : divides h f) by (exists (pmulZ h t); apply eqp_sym; exact E).
+  assert (D2 : divides h (pdiff p f)).
+  { exists (paddZ (pmulZ (pdiff p h) t) (pdiff p (pmulZ h t))). eapply eqp_trans; [|apply eqp_sym; exact E']. evr. }
+  pose proof (pdiff_canon p Hp f) as Cd.
+  pose proof (pgcd_greatest p Hp f (pdiff p f) h Cf Cd Ch D1 D2) as D.
+  pose proof (pgcd_canon p Hp f (pdiff p f) Cf Cd) as CG. pose proof (pgcd_nonnil p f (pdiff p f) (or_introl Nf)) as NG.
+  pose proof (divides_length_le p Hp h _ Ch CG NG D) as L. unfold sqfree_h, deg in Sf. lia. Qed.
+
+Lemma pgcd_const_r S P : deg P = 0 -> pgcd p S P = P.
+Proof. intros H. unfold pgcd. cbv zeta. rewrite H. rewrite Z.eqb_refl, orb_true_r. reflexivity. Qed.
+Lemma ddf_trace_const P MOD : deg P = 0 -> forall m dp W, ddf_trace p m dp W P MOD = ([], P).
+Proof. intros H. induction m as [|m IH]; intros dp W; cbn [ddf_trace]; [reflexivity|]. cbv zeta.
+  rewrite pgcd_const_r by assumption. rewrite H. change (0 >? 0) with false. cbv iota. apply IH. Qed.
+
+Lemma const_no_irr_divisor P h : canon P -> deg P = 0 -> canon h -> irreducible_def h -> divides h P -> False.
+Proof. intros CP H Ch Ih D. destruct (canon_len1 p P CP (deg0_len1 P H)) as [c [-> Hc]].
+  pose proof (divides_const_is_const p Hp h c Ch Hc D) as L. pose proof (irreducible_len p h Ih). lia. Qed.
+
+Section Trace.
+Variable f : poly.
+Hypothesis Cf : canon f.
+Hypothesis Nf : f <> [].
+Hypothesis Sf : sqfree_h p f.
+
+Lemma ddf_trace_ok : forall m dp W P, 1 <= dp -> canon P -> P <> [] -> divides P f -> canon W ->
+  cong P W (pwr Xpoly (Z.to_nat (p ^ (dp - 1)))) ->
+  (forall h, canon h -> irreducible_def h -> divides h P -> dp <= deg h) ->
+  trace_ok p (fst (ddf_trace p m dp W P p)) /\ canon (snd (ddf_trace p m dp W P p)) /\
+  snd (ddf_trace p m dp W P p) <> [] /\ divides (snd (ddf_trace p m dp W P p)) f /\
+  (forall h, canon h -> irreducible_def h -> divides h (snd (ddf_trace p m dp W P p)) -> dp + Z.of_nat m <= deg h).
+Proof. pose proof (canon_Xpoly p Hp) as CX.
+  induction m as [|m IH]; intros dp W P Hdp CP NP DP CW HW HP.
+  { cbn [ddf_trace fst snd]. split; [constructor|]. split; [assumption|]. split; [assumption|]. split; [assumption|].
+    intros h Ch Ih Dh. pose proof (HP h Ch Ih Dh). lia. }
+  destruct (Nat.eq_dec (length P) 1) as [E1|N1].
+  { assert (H0 : deg P = 0) by (unfold deg; lia). rewrite (ddf_trace_const P p H0). cbn [fst snd].
+    split; [constructor|]. split; [assumption|]. split; [assumption|]. split; [assumption|].
+    intros h Ch Ih Dh. exfalso. exact (const_no_irr_divisor P h CP H0 Ch Ih Dh). }
+  assert (LP : (2 <= length P)%nat) by (destruct P; [congruence|cbn [length] in *; lia]).
+  assert (Hq : 0 <= p ^ dp) by (apply Z.pow_nonneg; lia).
+  assert (Ea : Z.to_nat (p ^ dp) = (Z.to_nat (p ^ (dp - 1)) * np)%nat).
+  { replace (p ^ dp) with (p * p ^ (dp - 1)) by (rewrite <- Z.pow_succ_r by lia; f_equal; lia).
+    rewrite Z2Nat.inj_mul; [apply Nat.mul_comm|lia|apply Z.pow_nonneg; lia]. }
+  assert (EW : ppowmod p W p P = ppowmod p Xpoly (p ^ dp) P).
+  { destruct (ppowmod_spec p Hp W P p CW CP LP ltac:(lia)) as [H1 [C1 L1]]. symmetry.
+    apply (ppowmod_char p Hp); try assumption. apply cong_sym. eapply cong_trans; [|exact H1].
+    apply cong_eqp_l with (pwr (pwr Xpoly (Z.to_nat (p ^ (dp - 1)))) np).
+    { apply eqp_ev. intros x. rewrite Ea. symmetry. apply ev_pwr_mul. }
+    apply cong_pwr. apply cong_sym. exact HW. }
+  cbn [ddf_trace]. cbv zeta. rewrite EW.
+  destruct (ppowmod_spec p Hp Xpoly P (p ^ dp) CX CP LP Hq) as [HW' [CW' LW']].
+  set (W' := ppowmod p Xpoly (p ^ dp) P) in *.
+  destruct (round_G1_canon P CP LP dp) as [CG [NG DG]].
+  pose proof (round_fact P CP LP dp Hdp HP) as FG.
+  pose proof (round_collects P CP LP dp) as Coll.
+  set (G1 := pgcd p (psub p W' Xpoly) P) in *.
+  assert (HW2 : forall Q, divides Q P -> cong Q W' (pwr Xpoly (Z.to_nat (p ^ (dp + 1 - 1))))).
+  { intros Q DQ. replace (dp + 1 - 1) with dp by lia. apply cong_sym. apply (cong_divides p Q P _ _ DQ HW'). }
+  destruct (Z.gtb_spec (deg G1) 0) as [G|G].
+  - destruct (div_exact p Hp P G1 CP CG NG DG) as [Ex CQ]. set (Q := pdiv p P G1) in *.
+    assert (NQ : Q <> []).
+    { intro E0. rewrite E0 in Ex. apply NP. apply (canon_eqp_nil p Hp); [assumption|]. apply eqp_sym. eapply eqp_trans; [|exact Ex]. evr. }
+    assert (DQ : divides Q P) by (exists G1; eapply eqp_trans; [|exact Ex]; evr).
+    destruct (IH (dp + 1) W' Q ltac:(lia) CQ NQ (divides_trans p Q P f DQ DP) CW' (HW2 Q DQ)) as [T [C [N [D H]]]].
+    { intros h Ch Ih Dh. pose proof (HP h Ch Ih (divides_trans p h Q P Dh DQ)) as Ge.
+      destruct (Z.eq_dec (deg h) dp) as [Eh|Nh]; [exfalso|lia].
+      pose proof (Coll h Ch Ih (divides_trans p h Q P Dh DQ) Eh) as [u Hu]. destruct Dh as [v Hv].
+      apply (sqfree_no_square f h Cf Nf Sf Ch Ih). eapply divides_trans; [|exact DP].
+      exists (pmulZ u v). eapply eqp_trans; [|exact Ex].
+      eapply eqp_trans; [|apply eqp_mul; [exact Hu|exact Hv]]. evr. }
+    cbn [fst snd]. split; [constructor; [exact FG|exact T]|]. split; [assumption|]. split; [assumption|]. split; [assumption|].
+    intros h Ch Ih Dh. pose proof (H h Ch Ih Dh). lia.
+  - destruct (IH (dp + 1) W' P ltac:(lia) CP NP DP CW' (HW2 P (divides_refl p P))) as [T [C [N [D H]]]].
+    { intros h Ch Ih Dh. pose proof (HP h Ch Ih Dh) as Ge.
+      destruct (Z.eq_dec (deg h) dp) as [Eh|Nh]; [exfalso|lia].
+      pose proof (Coll h Ch Ih Dh Eh) as Dg. pose proof (divides_length_le p Hp h G1 Ch CG NG Dg).
+      pose proof (irreducible_len p h Ih). unfold deg in G. lia. }
+    split; [assumption|]. split; [assumption|]. split; [assumption|]. split; [assumption|].
+    intros h Ch Ih Dh. pose proof (H h Ch Ih Dh). lia. Qed.
+
+Theorem ddf_hyp_squarefree : ddf_hyp p f p.
+Proof. pose proof (canon_Xpoly p Hp) as CX. unfold ddf_hyp. cbv zeta.
+  set (m := Z.to_nat (deg f / 2)).
+  destruct (ddf_trace_ok m 1 Xpoly f ltac:(lia) Cf Nf (divides_refl p f) CX) as [T [CR [NR [DR HR]]]].
+  { change (1 - 1) with 0. rewrite Z.pow_0_r. change (Z.to_nat 1) with 1%nat. cbn [pwr]. apply cong_of_eqp. evr. }
+  { intros h Ch [Ih _] _. exact Ih. }
+  split; [exact T|]. set (R := snd (ddf_trace p m 1 Xpoly f p)) in *. intros HdR.
+  split; [lia|]. intros A B CA CB E.
+  destruct (Z.eq_dec (deg A) 0) as [|NA0]; [left; assumption|]. destruct (Z.eq_dec (deg B) 0) as [|NB0]; [right; assumption|]. exfalso.
+  assert (NA : A <> []) by (intro; subst; apply NR; exact (canon_mul_nil_l p Hp B R CR E)).
+  assert (E' : eqp (pmulZ B A) R) by (eapply eqp_trans; [|exact E]; evr).
+  assert (NB : B <> []) by (intro; subst; apply NR; exact (canon_mul_nil_l p Hp A R CR E')).
+  pose proof (canon_mul_length p Hp A B R CA CB CR NA NB E) as LR.
+  assert (DA : 1 <= deg A) by (unfold deg in *; destruct A; [congruence|cbn [length] in *; lia]).
+  assert (DB : 1 <= deg B) by (unfold deg in *; destruct B; [congruence|cbn [length] in *; lia]).
+  destruct (exists_irr_divisor p Hp A CA DA) as [hA [ChA [IhA DhA]]].
+  destruct (exists_irr_divisor p Hp B CB DB) as [hB [ChB [IhB DhB]]].
+  pose proof (HR hA ChA IhA (divides_trans p hA A R DhA (ex_intro _ B E))) as GA.
+  pose proof (HR hB ChB IhB (divides_trans p hB B R DhB (ex_intro _ A E'))) as GB.
+  pose proof (divides_length_le p Hp hA A ChA CA NA DhA) as LA.
+  pose proof (divides_length_le p Hp hB B ChB CB NB DhB) as LB.
+  pose proof (divides_length_le p Hp R f CR Cf Nf DR) as LRf.
+  assert (0 <= deg f) by (unfold deg; destruct f; [congruence|cbn [length]; lia]).
+  unfold m, deg in *. lia. Qed.
+
+End Trace.
+
+(* ---- consequences for the factorisation code: on a square-free input every factor DistinctDegreeFactor appends is
+   irreducible (no hypothesis left), and CZfactor returns only irreducibles as soon as the parts of sqrfree are square-free *)
+Theorem ddf_irreducible_squarefree f L s L' s' : canon f -> f <> [] -> sqfree_h p f -> ddf p f p L s = Some (L', s') ->
+  exists N, L' = L ++ N /\ Forall (fun g => canon g /\ irreducible_def g) N /\ pairwise_nonassoc p N.
+Proof. intros Cf Nf Sf H.
+  destruct (ddf_irreducible p Hp f p L s L' s' Cf (ddf_hyp_squarefree f Cf Nf Sf) H) as [N [E FN]].
+  destruct (ddf_nonassoc p Hp f p L s L' s' Cf Nf Sf H) as [N' [E' PN]].
+  assert (N' = N) by (apply (app_inv_head L); congruence). subst N'. exists N. auto. Qed.
+
+Theorem czfactor_rep_irreducible_squarefree P s Lf Le s' : canon P -> P <> [] ->
+  czfactor_rep p P p s = Some (Lf, Le, s') -> Forall (sqfree_h p) (cz_parts p P) ->
+  Forall (fun f => canon f /\ irreducible_def f) Lf.
+Proof. intros CP NP H HS. apply (czfactor_rep_irreducible p Hp P p s Lf Le s' H).
+  pose proof (cz_parts_canon p Hp P) as HC. pose proof (cz_parts_nonnil p Hp P CP NP) as HN.
+  rewrite Forall_forall in *. intros g Hg. apply ddf_hyp_squarefree; auto. Qed.
+
 End P.
+
+(* ================= closed statements ================= *)
+(* R1, general form.  f = [c_0; ...; c_m] : list poly is c_0 + c_1 T + ... + c_m T^m;  evT f a  is its value at T := a
+   computed by Horner in Z[X] (no reduction); a is a root when the value vanishes modulo (p, F).  A polynomial of degree m
+   whose leading coefficient does not vanish modulo (p, F) has at most m distinct roots among the residues modulo F. *)
+Definition Roots_bound_stmt : Prop := forall p, prime p -> forall F, canon p F -> irreducible_def p F ->
+  forall m (f : list poly), length f = S m -> ~ cong p F (last f []) [] ->
+  forall L, NoDup L -> (forall a, In a L -> canon p a /\ (length a < length F)%nat /\ cong p F (evT f a) []) ->
+  (length L <= m)%nat.
+Lemma roots_bound_thm : Roots_bound_stmt.
+Proof. intros p Hp F CF IF. exact (roots_bound p Hp F CF IF). Qed.
+
+(* R1 for T^(p^i) - T, through Poly1Dom::powmod.  The exponent must satisfy 1 <= i: for i = 0 the map is the identity and
+   all p^deg F residues are fixed (see fixed_points_bound_i0_refuted). *)
+Definition Fixed_points_bound_stmt : Prop := forall p, prime p -> forall F i, canon p F -> (2 <= length F)%nat ->
+  irreducible_def p F -> 1 <= i -> forall L, NoDup L ->
+  (forall a, In a L -> canon p a /\ (length a < length F)%nat /\ ppowmod p a (p ^ i) F = pmod p a F) ->
+  Z.of_nat (length L) <= p ^ i.
+Lemma fixed_points_bound_thm : Fixed_points_bound_stmt.
+Proof. intros p Hp F i CF _ IF Hi L ND HL. exact (fixed_points_bound p Hp F CF IF i L Hi ND HL). Qed.
+
+(* Frobenius iterated:  B^(p^d) = B(X^(p^d))  in GF(p)[X]  (comp B Y = B(Y) by Horner, no reduction) *)
+Definition Frobenius_iter_stmt : Prop := forall p, prime p -> forall B d,
+  eqp p (pwr B (Z.to_nat p ^ d)) (comp B (pwr Xpoly (Z.to_nat p ^ d))).
+Lemma frobenius_iter_thm : Frobenius_iter_stmt.
+Proof. exact frobenius_iter. Qed.
+
+(* R2: an irreducible g dividing X^(p^d) - X has degree <= d  (1 <= d; for d = 0 the hypothesis always holds) *)
+Definition Irr_divides_Xq_degree_stmt : Prop := forall p, prime p -> forall g d, canon p g -> irreducible_def p g -> 1 <= d ->
+  ppowmod p Xpoly (p ^ d) g = pmod p Xpoly g -> deg g <= d.
+Lemma irr_divides_Xq_degree_thm : Irr_divides_Xq_degree_stmt.
+Proof. exact irr_divides_Xq_degree. Qed.
+
+(* R3: the implemented test accepts every irreducible polynomial, hence (with ProofsIrrSound.v) decides irreducibility *)
+Definition Is_irreducible_complete_stmt : Prop := forall p, prime p -> forall P, canon p P -> irreducible_def p P ->
+  is_irreducible p P p = true.
+Lemma is_irreducible_complete_thm : Is_irreducible_complete_stmt.
+Proof. exact is_irreducible_complete. Qed.
+Definition Is_irreducible_decides_stmt : Prop := forall p, prime p -> forall P, canon p P ->
+  (is_irreducible p P p = true <-> irreducible_def p P).
+Lemma is_irreducible_decides_thm : Is_irreducible_decides_stmt.
+Proof. exact is_irreducible_decides. Qed.
+(* an irreducible polynomial is coprime to its derivative, as Poly1Dom::gcd computes it *)
+Definition Irr_pdiff_coprime_stmt : Prop := forall p, prime p -> forall P, canon p P -> irreducible_def p P ->
+  deg (pgcd p (pdiff p P) P) <= 0.
+Lemma irr_pdiff_coprime_thm : Irr_pdiff_coprime_stmt.
+Proof. exact irr_pdiff_coprime. Qed.
+
+(* R4: a non-zero polynomial all of whose irreducible divisors have degree d is c * (product of irreducibles of degree d) *)
+Definition Factor_same_degree_stmt : Prop := forall p, prime p -> forall d G, canon p G -> G <> [] ->
+  (forall h, canon p h -> irreducible_def p h -> divides p h G -> deg h = d) -> ddf_fact p G d.
+Lemma factor_same_degree_thm : Factor_same_degree_stmt.
+Proof. intros p Hp d G CG NG H. exact (factor_same_degree p Hp d (length G) G (le_n _) CG NG H). Qed.
+
+(* R4: one round of DistinctDegreeFactor.  G1 = gcd(X^(p^d) - X mod P, P).  If no irreducible divisor of P has degree < d
+   then G1 is, up to a constant, a product of irreducibles of degree exactly d; and (without that hypothesis) G1 collects
+   every irreducible divisor of degree d of P, and each irreducible divisor of G1 has degree <= d. *)
+Definition Ddf_round_stmt : Prop := forall p, prime p -> forall P d, canon p P -> (2 <= length P)%nat -> 1 <= d ->
+  let G1 := pgcd p (psub p (ppowmod p Xpoly (p ^ d) P) Xpoly) P in
+  ((forall h, canon p h -> irreducible_def p h -> divides p h P -> d <= deg h) -> ddf_fact p G1 d) /\
+  (forall h, canon p h -> irreducible_def p h -> divides p h P -> deg h = d -> divides p h G1) /\
+  (forall h, canon p h -> irreducible_def p h -> divides p h G1 -> divides p h P /\ deg h <= d).
+Lemma ddf_round_thm : Ddf_round_stmt.
+Proof. intros p Hp P d CP LP Hd G1. split; [|split].
+  - exact (round_fact p Hp P CP LP d Hd).
+  - exact (round_collects p Hp P CP LP d).
+  - exact (round_divisor_le p Hp P CP LP d Hd). Qed.
+
+(* R5: the explicit hypothesis ddf_hyp of ProofsFactors.v (F2/F3) holds for EVERY non-zero square-free polynomial:
+   sqfree_h p f = deg (pgcd p f (pdiff p f)) <= 0 *)
+Definition Ddf_hyp_squarefree_stmt : Prop := forall p, prime p -> forall f, canon p f -> f <> [] -> sqfree_h p f ->
+  ddf_hyp p f p.
+Lemma ddf_hyp_squarefree_thm : Ddf_hyp_squarefree_stmt.
+Proof. exact ddf_hyp_squarefree. Qed.
+
+(* ... so DistinctDegreeFactor on a square-free input appends only irreducible, pairwise non-associate factors, for every
+   stream of random choices; and CZfactor (repaired sqrfree) returns only irreducibles when the parts are square-free *)
+Definition Ddf_irreducible_squarefree_stmt : Prop := forall p, prime p -> forall f L s L' s', canon p f -> f <> [] ->
+  sqfree_h p f -> ddf p f p L s = Some (L', s') ->
+  exists N, L' = L ++ N /\ Forall (fun g => canon p g /\ irreducible_def p g) N /\ pairwise_nonassoc p N.
+Lemma ddf_irreducible_squarefree_thm : Ddf_irreducible_squarefree_stmt.
+Proof. exact ddf_irreducible_squarefree. Qed.
+Definition Czfactor_rep_irreducible_squarefree_stmt : Prop := forall p, prime p -> forall P s Lf Le s', canon p P -> P <> [] ->
+  czfactor_rep p P p s = Some (Lf, Le, s') -> Forall (sqfree_h p) (cz_parts p P) ->
+  Forall (fun f => canon p f /\ irreducible_def p f) Lf.
+Lemma czfactor_rep_irreducible_squarefree_thm : Czfactor_rep_irreducible_squarefree_stmt.
+Proof. exact czfactor_rep_irreducible_squarefree. Qed.
+
+(* ================= the hypotheses are satisfiable; the excluded exponents really fail ================= *)
+Lemma canon_2_1 : canon 2 [1]. Proof. canon_lit. Qed.
+Lemma canon_2_111 : canon 2 [1; 1; 1]. Proof. canon_lit. Qed.
+
+(* GF(4) = GF(2)[X]/(X^2+X+1): the roots of T^2 - T are 0 and 1 *)
+Example roots_bound_example : prime 2 /\ canon 2 [1; 1; 1] /\ irreducible_def 2 [1; 1; 1] /\
+  length (fixpoly 2) = 3%nat /\ ~ cong 2 [1; 1; 1] (last (fixpoly 2) []) [] /\ NoDup [[]; [1]] /\
+  (forall a, In a [[]; [1]] -> canon 2 a /\ (length a < length [1; 1; 1])%nat /\ cong 2 [1; 1; 1] (evT (fixpoly 2) a) []).
+Proof. split; [exact prime_2|]. split; [exact canon_2_111|]. split; [exact irr_2_111|]. split; [reflexivity|].
+  split; [rewrite fixpoly_last; apply (one_not_zero 2 prime_2 _ canon_2_111 irr_2_111)|].
+  split; [repeat constructor; cbn [In]; intuition discriminate|].
+  intros a [<-|[<-|[]]]; (split; [first [apply canon_nil|exact canon_2_1]|]); (split; [cbn [length]; lia|]);
+    apply cong_of_eqp; apply eqp_ev; intros x; cbn [fixpoly Nat.sub repeat app evT paddZ pmulZ pscaleZ map ev]; ring. Qed.
+
+(* squaring in GF(4) fixes exactly 0 and 1: 2 <= 2^1 *)
+Example fixed_points_bound_example : prime 2 /\ canon 2 [1; 1; 1] /\ (2 <= length [1; 1; 1])%nat /\
+  irreducible_def 2 [1; 1; 1] /\ 1 <= 1 /\ NoDup [[]; [1]] /\
+  (forall a, In a [[]; [1]] -> canon 2 a /\ (length a < length [1; 1; 1])%nat /\
+     ppowmod 2 a (2 ^ 1) [1; 1; 1] = pmod 2 a [1; 1; 1]) /\
+  ppowmod 2 [0; 1] (2 ^ 1) [1; 1; 1] <> pmod 2 [0; 1] [1; 1; 1].
+Proof. split; [exact prime_2|]. split; [exact canon_2_111|]. split; [cbn; lia|]. split; [exact irr_2_111|]. split; [lia|].
+  split; [repeat constructor; cbn [In]; intuition discriminate|]. split; [|vm_compute; discriminate].
+  intros a [<-|[<-|[]]]; (split; [first [apply canon_nil|exact canon_2_1]|]); (split; [cbn [length]; lia|]); vm_compute; reflexivity. Qed.
+
+(* with 0 <= i instead of 1 <= i the bound is FALSE: i = 0, GF(4), the two residues 0 and 1 (all four are fixed) *)
+Lemma fixed_points_bound_i0_refuted : ~ (forall p, prime p -> forall F i, canon p F -> (2 <= length F)%nat ->
+  irreducible_def p F -> 0 <= i -> forall L, NoDup L ->
+  (forall a, In a L -> canon p a /\ (length a < length F)%nat /\ ppowmod p a (p ^ i) F = pmod p a F) ->
+  Z.of_nat (length L) <= p ^ i).
+Proof. intros H.
+  specialize (H 2 prime_2 [1; 1; 1] 0 canon_2_111 ltac:(cbn; lia) irr_2_111 ltac:(lia) [[]; [1]]).
+  assert (ND : NoDup [[]; [1]]) by (repeat constructor; cbn [In]; intuition discriminate).
+  specialize (H ND). cbn [length] in H. change (2 ^ 0) with 1 in H. enough (Z.of_nat 2 <= 1) by lia. apply H.
+  intros a [<-|[<-|[]]]; (split; [first [apply canon_nil|exact canon_2_1]|]); (split; [cbn [length]; lia|]); vm_compute; reflexivity. Qed.
+
+(* X^2 + X + 1 over GF(2) divides X^4 - X: degree 2 <= 2; it does not divide X^2 - X *)
+Example irr_divides_Xq_degree_example : prime 2 /\ canon 2 [1; 1; 1] /\ irreducible_def 2 [1; 1; 1] /\ 1 <= 2 /\
+  ppowmod 2 Xpoly (2 ^ 2) [1; 1; 1] = pmod 2 Xpoly [1; 1; 1] /\ deg [1; 1; 1] = 2 /\
+  ppowmod 2 Xpoly (2 ^ 1) [1; 1; 1] <> pmod 2 Xpoly [1; 1; 1].
+Proof. split; [exact prime_2|]. split; [exact canon_2_111|]. split; [exact irr_2_111|]. split; [lia|].
+  split; [vm_compute; reflexivity|]. split; [reflexivity|vm_compute; discriminate]. Qed.
+(* with 0 <= d the statement is FALSE: X^(p^0) = X modulo anything *)
+Lemma irr_divides_Xq_degree_d0_refuted : ~ (forall p, prime p -> forall g d, canon p g -> irreducible_def p g -> 0 <= d ->
+  ppowmod p Xpoly (p ^ d) g = pmod p Xpoly g -> deg g <= d).
+Proof. intros H. specialize (H 2 prime_2 [1; 1; 1] 0 canon_2_111 irr_2_111 ltac:(lia) ltac:(vm_compute; reflexivity)).
+  change (deg [1; 1; 1]) with 2 in H. lia. Qed.
+
+(* X^2 + 1 is irreducible over GF(3) and accepted; X^2 + 2 = (X+1)(X+2) is rejected *)
+Example is_irreducible_complete_example : prime 3 /\ canon 3 [1; 0; 1] /\ irreducible_def 3 [1; 0; 1] /\
+  is_irreducible 3 [1; 0; 1] 3 = true /\ canon 3 [2; 0; 1] /\ is_irreducible 3 [2; 0; 1] 3 = false /\
+  deg (pgcd 3 (pdiff 3 [1; 0; 1]) [1; 0; 1]) = 0.
+Proof. split; [exact prime_3_lag|]. split; [canon_lit|]. split; [exact irr_3_101|]. split; [vm_compute; reflexivity|].
+  split; [canon_lit|]. split; vm_compute; reflexivity. Qed.
+
+(* f = (X + 1)(X^2 + 1) over GF(3): square-free; round d = 1 extracts 2 (X + 1) *)
+Example ddf_round_example : prime 3 /\ canon 3 [1; 1; 1; 1] /\ (2 <= length [1; 1; 1; 1])%nat /\ 1 <= 1 /\
+  (forall h, canon 3 h -> irreducible_def 3 h -> divides 3 h [1; 1; 1; 1] -> 1 <= deg h) /\
+  pgcd 3 (psub 3 (ppowmod 3 Xpoly (3 ^ 1) [1; 1; 1; 1]) Xpoly) [1; 1; 1; 1] = [2; 2].
+Proof. split; [exact prime_3_lag|]. split; [canon_lit|]. split; [cbn; lia|]. split; [lia|].
+  split; [intros h _ [H _] _; exact H|vm_compute; reflexivity]. Qed.
+Example factor_same_degree_example : prime 3 /\ canon 3 [2; 2] /\ [2; 2] <> [] /\ ddf_fact 3 [2; 2] 1.
+Proof. split; [exact prime_3_lag|]. split; [canon_lit|]. split; [discriminate|].
+  apply (ddf_fact_intro 3 prime_3_lag _ _ [[1; 1]] 2); [vm_compute; discriminate| |vm_compute; reflexivity].
+  constructor; [|constructor]. apply (irr_deg_intro 3 prime_3_lag); [canon_lit|vm_compute; reflexivity|reflexivity]. Qed.
+
+Example ddf_hyp_squarefree_example : prime 3 /\ canon 3 [1; 1; 1; 1] /\ [1; 1; 1; 1] <> [] /\ sqfree_h 3 [1; 1; 1; 1] /\
+  ddf_trace 3 1 1 Xpoly [1; 1; 1; 1] 3 = ([(1, [2; 2])], [2; 0; 2]) /\
+  ddf 3 [1; 1; 1; 1] 3 [] [1; 2; 0] = Some ([[2; 2]; [2; 0; 2]], [1; 2; 0]).
+Proof. split; [exact prime_3_lag|]. split; [canon_lit|]. split; [discriminate|].
+  split; [unfold sqfree_h; vm_compute; discriminate|]. split; vm_compute; reflexivity. Qed.
+
+(* P = X (X + 2) (X + 1)^2 (X^2 + 1) over GF(3): the parts X (X + 2)(X^2 + 1) and X + 1 are square-free *)
+Example czfactor_rep_irreducible_squarefree_example : prime 3 /\ canon 3 [0; 2; 2; 0; 0; 1; 1] /\ [0; 2; 2; 0; 0; 1; 1] <> [] /\
+  Forall (sqfree_h 3) (cz_parts 3 [0; 2; 2; 0; 0; 1; 1]) /\
+  czfactor_rep 3 [0; 2; 2; 0; 0; 1; 1] 3 [1; 2; 1; 1; 2; 0; 1; 1; 2; 0; 2; 1] =
+    Some ([[2; 1]; [0; 2]; [2; 0; 2]; [1; 1]], [1; 1; 1; 2], [1; 1; 2; 0; 1; 1; 2; 0; 2; 1]).
+Proof. split; [exact prime_3_lag|]. split; [canon_lit|]. split; [discriminate|].
+  split; [apply sqfree_h_of_bool; vm_compute; reflexivity|vm_compute; reflexivity]. Qed.
